@@ -165,12 +165,66 @@ func counterCase(r *rng.R, res *Result) string {
 	return coqfmt.App("KCounter", coqfmt.Bool(long), coqfmt.Z(start), coqfmt.List(ds), coqfmt.Z(got))
 }
 
+func rhtCase(r *rng.R, res *Result) string {
+	h := crdt.NewRHT()
+	lam := int64(1)
+	used := map[string]bool{}
+	fresh := func() *time.Ticket {
+		for {
+			l := lam
+			if r.Chance(1, 3) && lam > 2 {
+				l = int64(r.Range(1, int(lam)))
+			}
+			lam++
+			t := time.NewTicket(l, uint32(r.Intn(3)), actorOf(uint64(r.Range(1, 4))))
+			if !used[t.Key()] {
+				used[t.Key()] = true
+				return t
+			}
+		}
+	}
+	keys := []string{"bold", "color", "italic"}
+	var ops []string
+	for j, n := 0, r.Range(2, 14); j < n; j++ {
+		t := fresh()
+		k := r.Intn(len(keys))
+		var op string
+		if r.Chance(2, 3) {
+			v := r.Intn(50)
+			h.Set(keys[k], fmt.Sprint(v), t)
+			op = coqfmt.App("APut", coqfmt.N(uint64(k+1)), coqfmt.Z(int64(v)), ticketCoq(t))
+			res.count("op.attr-set")
+		} else {
+			h.Remove(keys[k], t)
+			op = coqfmt.App("ARemove", coqfmt.N(uint64(k+1)), ticketCoq(t))
+			res.count("op.attr-remove")
+		}
+		var live []string
+		els := h.Elements()
+		for ki, kk := range keys {
+			if v, ok := els[kk]; ok {
+				var x int64
+				fmt.Sscan(v, &x)
+				live = append(live, coqfmt.Pair(coqfmt.N(uint64(ki+1)), coqfmt.Z(x)))
+			}
+		}
+		ops = append(ops, coqfmt.Pair(op, coqfmt.List(live)))
+	}
+	return coqfmt.App("KRht", coqfmt.List(ops))
+}
+
 func runErht(cfg *config) error {
 	r := rng.New(cfg.seed)
 	res := newResult("erht", cfg.seed)
 	var cases []string
 	seen := distinct{}
 	for i := 0; i < cfg.n; i++ {
+		if i%4 == 2 {
+			c := rhtCase(r.Fork(), res)
+			cases = append(cases, c)
+			seen.add(c)
+			continue
+		}
 		if i%4 == 3 {
 			c := counterCase(r.Fork(), res)
 			cases = append(cases, c)
